@@ -910,6 +910,17 @@ func runC34(c *Ctx) {
 		}
 	}
 	if f := c.fn("mqtt", "(*Client).WriteLoop"); f != nil {
-		c.ob("C34.b sent-means-written", "(*mqtt.Client).WriteLoop writes every queued packet through WritePacket", c.pos(f.Pos()), c.call1(f, fnWritePacket) != nil, "")
+		w := c.call1(f, fnWritePacket)
+		c.ob("C34.b sent-means-written", "(*mqtt.Client).WriteLoop writes every queued packet through WritePacket", c.pos(f.Pos()), w != nil, "")
+		// every packet taken from the queue is written (and with it the buffer gets its chance to be flushed):
+		// no way back to the receive without passing WritePacket
+		for _, ins := range instrs(f) {
+			sel, ok := ins.(*ssa.Select)
+			if !ok {
+				continue
+			}
+			c.noPath("C34.b sent-means-written", "(*mqtt.Client).WriteLoop: a packet taken from the queue is never skipped (every iteration that received one calls WritePacket)", f, sel, isIns(sel), isNamed(fnWritePacket), nil,
+				"a silently skipped packet is an unreported drop, and if it was the last one queued the bytes buffered before it are never flushed")
+		}
 	}
 }
